@@ -41,12 +41,22 @@ func genFile(r *gen.Rand, c *Case) {
 	lim := []int{8, 8, 16, 24}[r.Intn(4)]
 	c.Lim = lim
 	ns := r.Range(1, 4)
-	c.Shape = fmt.Sprintf("series=%d", ns)
+	c.CMode = r.Intn(immutable.ChunkMetaCompressEnd) // every chunk-meta-compress-mode (the default is 0)
+	c.Shape = fmt.Sprintf("series=%d/cmode=%d", ns, c.CMode)
 	id := uint64(r.Range(1, 1000))
 	t0 := uint64(1600000000000000000)
 	strs := []string{"", "", "x", "0123456789abcde", "0123456789abcdef", "hello world, this is longer than sixteen bytes", "\x00"}
+	long := r.Chance(1, 6) // long series: statistics counts of two uvarint bytes (the float block reaches the fixed size)
+	if long {
+		lim = []int{64, 96}[r.Intn(2)] // the store rounds the segment size up to a multiple of 8
+		c.Lim = lim
+		c.Shape += "/long"
+	}
 	for s := 0; s < ns; s++ {
 		n := []int{1, 2, lim - 1, lim, lim + 1, 2 * lim, 2*lim + 1, r.Range(1, 3*lim), r.Range(1, 3*lim)}[r.Intn(9)]
+		if long && s == 0 {
+			n = r.Range(130, 260)
+		}
 		se := SeriesIn{ID: id}
 		id += uint64(r.Range(1, 1<<uint(r.Range(1, 40))))
 		tt := t0 + uint64(r.Intn(1000000))
@@ -60,18 +70,34 @@ func genFile(r *gen.Rand, c *Case) {
 				continue // this series has no such field
 			}
 			col := ColIn{T: t, Nulls: genNulls(r, n, lim)}
+			// per-column regimes: large-magnitude integers (long varints in the statistics), floats that are all zeros
+			// of either sign
+			big, zeros := 0, false
+			if t == "int" && r.Chance(1, 3) {
+				big = r.Range(48, 62)
+			}
+			if t == "float" && r.Chance(1, 10) {
+				zeros = true
+			}
 			for i := 0; i < n; i++ {
 				nn := uint64(1 - col.Nulls[i])
 				switch t {
 				case "int":
 					v := uint64(r.Int64Boundary())
-					if r.Chance(2, 3) {
+					if big > 0 {
+						v = uint64(int64(1)<<uint(big) + int64(r.Uint64()%(1<<uint(big-2))))
+						if r.Bool() {
+							v = -v
+						}
+					} else if r.Chance(2, 3) {
 						v = uint64(int64(r.Intn(2000) - 1000))
 					}
 					col.Vals = append(col.Vals, v*nn)
 				case "float":
 					v := math.Float64bits(float64(r.Intn(2000)-1000) / 8)
-					if r.Chance(1, 8) {
+					if zeros {
+						v = uint64(r.Intn(2)) << 63
+					} else if r.Chance(1, 8) {
 						v = special(r)
 					}
 					col.Vals = append(col.Vals, v*nn)
@@ -259,6 +285,8 @@ func statOf(col ColIn, times []uint64) expStat {
 func runFile(c *Case) {
 	walInit()
 	c.Mode = -1
+	immutable.SetChunkMetaCompressMode(c.CMode)
+	defer immutable.SetChunkMetaCompressMode(immutable.ChunkMetaCompressNone)
 	dir := filepath.Join(walDir, "tssp")
 	_ = os.MkdirAll(dir, 0750)
 	fileSeq++
